@@ -150,6 +150,7 @@ class AbsInt:
         self.types = {}       # var -> (width, signed)
         self.loops = []       # loop reports
         self.ret_states = []
+        self.call_range = None   # optional callable (ai, call expr, state) -> (lo, hi) | None: summaries of callees
 
     # -- helpers ---------------------------------------------------------------------
     def name(self, e):
@@ -279,6 +280,20 @@ class AbsInt:
                     return ('itv', min(ps), max(ps))
                 if op == '&' and lo2 == hi2 and lo2 >= 0:
                     return ('itv', 0, lo2)
+        if k == 'call' and self.call_range is not None:
+            r = self.call_range(self, e, st)
+            if r is not None:
+                return ('itv', r[0], r[1])
+        if k == 'cond':
+            t = self.guard(st.copy(), a[0], True)
+            f = self.guard(st.copy(), a[0], False)
+            rs = []
+            if not t.bottom:
+                rs.append(self.range_of(self.lin(a[1], t), t))
+            if not f.bottom:
+                rs.append(self.range_of(self.lin(a[2], f), f))
+            if rs:
+                return ('itv', min(r[0] for r in rs), max(r[1] for r in rs))
         it = int_type(e.ty)
         if it:
             w, s = it
@@ -498,6 +513,8 @@ class AbsInt:
             self.hooks.on_call(self, e, st)
         elif k == 'index':
             self.hooks.on_index(self, e, st)
+        elif (k == 'bin' and a[0] in ('+', '-', '*')) or (k == 'un' and a[0] == '-'):
+            self.hooks.on_arith(self, e, st)
 
     def stmt(self, s, st):
         """-> (fallthrough states, break states, continue states)"""
@@ -529,6 +546,8 @@ class AbsInt:
             rhs = a[1]
             if a[2] != '=':
                 rhs = E('bin', a[2][:-1], a[0], a[1], loc=s.loc, ty=a[0].ty)
+                if self.hooks is not None and a[2][:-1] in ('+', '-', '*') and not st.bottom:
+                    self.hooks.on_arith(self, rhs, st)
                 it = int_type(a[0].ty)
                 if it:
                     rhs = E('cast', it[0], it[1], rhs, loc=s.loc, ty=a[0].ty)
@@ -713,6 +732,10 @@ class Hooks:
 
     def on_object_assign(self, ai, x, rhs, st):
         """assignment to a variable of non-integral type (pointer, object)"""
+        pass
+
+    def on_arith(self, ai, e, st):
+        """a +, - or * node (also the implied one of a compound assignment), visited under the guards that dominate it"""
         pass
 
     def on_index(self, ai, e, st):
